@@ -402,9 +402,9 @@ def post_polyhedron_intersect(ctx, call):
 def install(ctx):
     import geometer.shapes as Sh
 
-    core.wrap_method(Sh.SegmentTensor, "intersect", post_segment_intersect)
-    core.wrap_method(Sh.PolygonTensor, "intersect", post_polygon_intersect)
-    core.wrap_method(Sh.Polyhedron, "intersect", post_polyhedron_intersect)
+    core.wrap_method_everywhere(Sh.Polyhedron, "intersect", post_polyhedron_intersect)
+    core.wrap_method_everywhere(Sh.SegmentTensor, "intersect", post_segment_intersect)
+    core.wrap_method_everywhere(Sh.PolygonTensor, "intersect", post_polygon_intersect)
 
 
 # ---------------------------------------------------------------------------------
